@@ -36,7 +36,8 @@ func bad(r *vrt.Result) (string, string) {
 	case r.Outcome == "deadlock":
 		return "deadlock", strings.Join(r.Blocked, "; ")
 	case r.Outcome == "horizon":
-		return "", ""
+		// complete executions of these drivers take fewer than a hundred scheduling steps
+		return "livelock", fmt.Sprintf("the execution does not end within the step horizon (%d scheduling steps): the calls never return", len(r.Trace))
 	}
 	return "", ""
 }
@@ -265,6 +266,9 @@ func drivers(quick bool) []conc.Driver {
 	}
 	for _, p := range pcs {
 		add(fmt.Sprintf("processor-w%d-c%d-b%d-n%d-e%d", p.w, p.c, p.b, p.n, p.e), processor(p.w, p.c, p.b, p.n, p.e))
+	}
+	if quick {
+		add("map-s1-t3-c1", mapper(1, 3, 1)) // fewer elements than half the threads (thorough has every t3 driver)
 	}
 	sizes, threads, chunks := []int{0, 1, 3}, []int{1, 2}, []int{1, 2, 4}
 	if !quick {
